@@ -13,11 +13,11 @@ Definition g_Mul (v_m : mat) (v_q : mat) : mat :=
 Definition g_Dot (v_m : mat) (v_p : qpt) : qpt :=
   (((((ma v_m) * (fst v_p)) + ((mb v_m) * (snd v_p))) + (mc v_m)), ((((md v_m) * (fst v_p)) + ((me v_m) * (snd v_p))) + (mf v_m))).
 
-(* util.go:721 *)
+(* util.go:720 *)
 Definition g_Det (v_m : mat) : Q :=
   (((ma v_m) * (me v_m)) - ((mb v_m) * (md v_m))).
 
-(* util.go:715 *)
+(* util.go:714 *)
 Definition g_T (v_m : mat) : mat :=
   let t0_ := (md v_m) in
   let t1_ := (mb v_m) in
@@ -37,11 +37,11 @@ Definition g_Scale (v_m : mat) (v_sx : Q) (v_sy : Q) : mat :=
 Definition g_Shear (v_m : mat) (v_sx : Q) (v_sy : Q) : mat :=
   (g_Mul v_m (mkM 1 v_sx 0 v_sy 1 0)).
 
-(* util.go:695 *)
+(* util.go:694 *)
 Definition g_ReflectX (v_m : mat) : mat :=
   (g_Scale v_m (- 1) 1).
 
-(* util.go:705 *)
+(* util.go:704 *)
 Definition g_ReflectY (v_m : mat) : mat :=
   (g_Scale v_m 1 (- 1)).
 
@@ -51,17 +51,17 @@ Definition g_ScaleAbout (v_m : mat) (v_sx : Q) (v_sy : Q) (v_x : Q) (v_y : Q) : 
 
 (* util.go:689 *)
 Definition g_ShearAbout (v_m : mat) (v_sx : Q) (v_sy : Q) (v_x : Q) (v_y : Q) : mat :=
-  (g_Translate (g_Shear v_m v_sx v_sy) ((- v_sx) * v_y) ((- v_sy) * v_x)).
+  (g_Translate (g_Shear (g_Translate v_m v_x v_y) v_sx v_sy) (- v_x) (- v_y)).
 
-(* util.go:700 *)
+(* util.go:699 *)
 Definition g_ReflectXAbout (v_m : mat) (v_x : Q) : mat :=
   (g_Translate (g_Scale (g_Translate v_m v_x 0) (- 1) 1) (- v_x) 0).
 
-(* util.go:710 *)
+(* util.go:709 *)
 Definition g_ReflectYAbout (v_m : mat) (v_y : Q) : mat :=
   (g_Translate (g_Scale (g_Translate v_m 0 v_y) 1 (- 1)) 0 (- v_y)).
 
-(* util.go:726 *)
+(* util.go:725 *)
 Definition g_Inv (v_m : mat) : option mat :=
   let v_det := (g_Det v_m) in
   if (Qeq_bool v_det 0) then None else
